@@ -162,3 +162,65 @@ add("C18",
     "float(value) over unit pairs of every quantity type of the real table (affine units included), judged by TLC.",
     "FractionScalar validation is covered by C12. The continued-fraction algorithm and the parsing regular expression are not transcribed; "
     "their post-conditions are.", "DESIGN.md 6/C18")
+
+add("C02",
+    "TLC trace validation (MC_C02.tla) of an exhaustive-by-type sweep of every public conversion route against UnitDatabase.Convert on the real table",
+    "For unit pairs of every quantity type (all ordered pairs for small types, seeded pairs incl. pairs through the base unit otherwise) and a "
+    "category sharing the quantity type (not only the default one), 30+ routes - Scalar.GetValue, CreateCopy(unit=), ChangeScalars, "
+    "Quantity.ConvertScalarValue / Convert, UnitDatabase.Convert on float / int / list / tuple / ndarray, Array.GetValues and CreateCopy in "
+    "every container kind incl. tuple-of-tuples, FixedArray.IndexAsScalar / ChangingIndex, the exponent form on derived quantities, "
+    "UnitSystemManager.ConvertToCurrent / ConvertScalarToCurrent - are executed and the worst element-wise deviation from the float "
+    "conversion (ppt of the magnitudes that entered it), the category, quantity type, unit, container kind and length of the result are "
+    "recorded; own-unit queries of simple and derived objects and category defaults in non-default units likewise. TLC validates every event.",
+    "The generic conversion code is additionally modelled in ConvAlgebra.tla (C01) and QAlg.tla (GetValue of C05). Tolerance 1e-9 (measured: routes "
+    "are bit-identical).", "DESIGN.md 6/C02")
+add("C08",
+    "TLC-predicted order matrix (MC_C08.tla: exact base amounts, coherence laws checked by TLC) replayed on Scalar / FractionScalar + TLC trace "
+    "validation of orderings over the real table and of the ==/!= matrix over all value classes",
+    "TLC computes from exact base amounts the six operator results for every ordered pair of a pool containing physically equal amounts in "
+    "different units (1 m / 100 cm / 1000 m / 1 km, 60 s / 1 min, ...) and two quantity types (TypeError across), and checks the coherence "
+    "laws on the predicted matrix; the matrix is replayed on Scalars and FractionScalars. On the real table seeded unit pairs of every quantity "
+    "type x two amounts are compared with the six operators and judged by TLC against the measured sign of the base-unit difference; ordering "
+    "across quantity types, against the empty quantity and the Unknown type must raise TypeError. ==/!= over all ordered pairs of 45 objects "
+    "(Quantity, Scalar, Array and FixedArray in list / tuple / ndarray containers of equal and different lengths, FractionScalar, "
+    "FractionValue, Fraction, Curve, UnitSystem, None, str, int, float, tuple) are recorded and judged: never raise, symmetric, != negates, "
+    "reflexive, equal hashable objects hash equal.",
+    "Ties only where both conversions are exact in binary; pairs closer than 1e-9 relative are not generated (DESIGN 8).", "DESIGN.md 6/C08")
+add("C09",
+    "TLC-computed table (MC_C09.tla) of quantity x operator x number x amount -> resulting composing map and amount, replayed with every "
+    "number type, operand order and container kind",
+    "The specification states the result of the ten operators between a value and a plain number independently of the Python type of the "
+    "number, of which operand is on the left and of the container: same composing map (reciprocal map for k/x, k//x) and the operation "
+    "applied to the amounts. TLC evaluates it with exact rationals for simple, derived and squared quantities; every row is instantiated "
+    "with int / float / numpy.float64 / numpy.int64 numbers and a numpy array operand, Scalar, Array and FixedArray in list / tuple / float "
+    "ndarray / integer ndarray containers; result class, composing map and values are compared.",
+    "Numbers and amounts exact in binary (no floor-division boundary); complex / bool / single precision not generated.", "DESIGN.md 6/C09")
+add("C10",
+    "TLC element-wise prediction table (MC_C10.tla over QAlg.tla's operators) replayed on Arrays in every container combination, with the "
+    "Scalar side executed on the code",
+    "For 78 x 78 operand recipes (atom or one product/quotient of 6 atoms incl. two categories of one type and affine units) x 5 operators TLC "
+    "predicts with the operators of QAlg.tla, element by element, acceptance, the resulting composing map and the amounts. Rows are "
+    "instantiated with list / tuple / ndarray containers on both sides: outcome family, composing map and element values are compared with "
+    "the prediction; the same operation on the corresponding Scalars is executed on the code (values and quantity equal); results must "
+    "not depend on the container kinds; empty operands give an empty Array of the predicted quantity; operands of different lengths are "
+    "rejected; an integer ndarray against a fractional list is compared with the Scalars; FromScalars + indexing returns the amounts.",
+    "quick: 15 % of the rows x 2 seeded container combinations; thorough: all rows x 9 combinations.", "DESIGN.md 6/C10")
+add("C11",
+    "TLC model check of the FixedArray / Curve machine (FixedArr.tla: SizeInvariant, CurveInvariant, RejectedChangesNothing, ChangingIndexLaw) "
+    "+ replay of every generated transition",
+    "FixedArr.tla transcribes the dimension resolution of every entry route (constructor forms, CreateWithQuantity with/without dimension, "
+    "CreateEmptyArray, CreateCopy with/without values and to another unit, pickling, arithmetic, ChangingIndex in four value forms, "
+    "IndexAsScalar) and Curve's SetImage / SetDomain; TLC checks len(values) = dimension >= 2 for every array ever obtained, equal image "
+    "and domain lengths, that a rejected call changes nothing and that ChangingIndex differs from its source only at the index where it holds "
+    "the supplied amount, over dimensions and lengths 0..4 and chains of 3 (quick) / 4 (thorough) calls. Every transition to depth 2 and a "
+    "1/4 sample of depth 3 (thorough: all) is replayed with seeded container kinds: outcome family, dimension, values, unit, sources unchanged.",
+    "Bounded; pool of at most 3 arrays.", "DESIGN.md 6/C11")
+add("C19",
+    "TLC trace validation (MC_C19.tla: default category computed by TLC from the exported table) of every documented construction form over all "
+    "units, categories and (unit, category) pairs of the real table",
+    "For all 1548 units the forms X(v,u), X(v,u,c), X(c,v,u), X((v,u)), X(quantity, v), CreateWithQuantity of Scalar, Array, FixedArray and "
+    "FractionScalar are built (values cycle through python / numpy numbers, containers through list / tuple / ndarray) and their projections "
+    "recorded; TLC requires all forms identical and pairwise ==, the unit's quantity type, and the category TLC computes from the exported table "
+    "(per-unit default_category, else the category named like the type). For every category the explicit-category forms over units of its type, "
+    "and the object built from the category alone against (default value, default unit, category); eval(repr(s)) == s for every simple Scalar.",
+    "quick: up to 6 seeded units per category for the explicit-category forms; thorough: all.", "DESIGN.md 6/C19")
